@@ -70,7 +70,9 @@ func autoImport(g *Graph, mi int, targets ...string) bool {
 	m := &g.Mods[mi]
 	seen := map[string]bool{key("main", false): true}
 	for _, it := range m.Items {
-		seen[key(it.Name, it.Kind == "type")] = true
+		if it.Kind != "sing" {
+			seen[key(it.Name, it.Kind == "type")] = true
+		}
 	}
 	for _, im := range m.Imports {
 		for _, x := range im.Items {
@@ -164,7 +166,7 @@ type Payload struct {
 }
 
 func (e *emitter) add(g Graph) {
-	h := fw.HashOf(g.Mods, g.Order, g.Mut, g.ViaValue, g.Leaks)
+	h := fw.HashOf(g.Mods, g.Order, g.Mut, g.ViaValue, g.Leaks, g.SingDirect)
 	if e.seen[h] {
 		return
 	}
@@ -374,6 +376,145 @@ func famKinds(e *emitter) {
 		autoImport(&g, 1, "a")
 		g.Mods[0].Imports = []Import{{From: "b", Items: []ImpItem{{Name: edgeName("b")}, {Name: "f"}}}}
 		e.add(g)
+	}
+	// the same probes against a module that has the names only through its own imports: the middle
+	// module b imports every pub item of the owner o (all shapes); what b imported is not b's to export
+	for _, tf := range kinds5 {
+		for _, tv := range kinds5 {
+			for tt := 0; tt < 3; tt++ {
+				for _, pr := range probes {
+					for mix := 0; mix < 2; mix++ {
+						g := Graph{Order: []string{"f", "v"}, Family: "kinds"}
+						g.Mods = []Mod{newMod("main", true), newMod("b", true), shapeMod("o", tf, tv, tt)}
+						autoImport(&g, 1, "o")
+						items := []ImpItem{pr}
+						if mix == 1 {
+							items = []ImpItem{{Name: edgeName("b")}, pr}
+						}
+						g.Mods[0].Imports = []Import{{From: "b", Items: items}}
+						e.add(g)
+					}
+				}
+			}
+		}
+	}
+}
+
+// ---- family "chain": import chains: what a module imported cannot be imported from it ----------
+
+// famChain: owner a defines pub X (function, global or type), a chain of modules hands it on:
+// m1 imports X from a (legal), m2 imports X from m1 (illegal: m1 does not define X), ... The entry
+// imports the edge function of the first module of the chain. Variants: length of the chain, which
+// hops exist, whether the middle modules use what they imported, whether the illegal statement
+// stands alone or next to a legal name, and whether the middle module defines a private X of the
+// other namespace (a value X next to the imported type X and vice versa).
+func famChain(e *emitter) {
+	owners := []Item{{Name: "x", Kind: "fn", Pub: true}, {Name: "x", Kind: "let", Pub: true}, {Name: "X", Kind: "type", Pub: true},
+		{Name: "x", Kind: "fn"}, {Name: "x", Kind: "let"}, {Name: "X", Kind: "type"}}
+	for _, own := range owners {
+		imp := ImpItem{Name: own.Name, Type: own.Kind == "type"}
+		for hops := 2; hops <= 3; hops++ { // number of modules that import X one from the other
+			for top := 0; top < 2; top++ { // 0: the entry is the last importer, 1: a non-entry module is
+				for mix := 0; mix < 3; mix++ {
+					for other := 0; other < 2; other++ {
+						g := Graph{Order: []string{"x"}, Family: "chain"}
+						// chain[0] is the last importer, chain[len-1] imports from the owner
+						var chain []string
+						if top == 0 {
+							chain = append(chain, "main")
+						} else {
+							g.Mods = append(g.Mods, newMod("main", true))
+						}
+						for len(chain) < hops {
+							chain = append(chain, []string{"b", "c", "d"}[len(chain)])
+						}
+						for _, n := range chain {
+							g.Mods = append(g.Mods, newMod(n, true))
+						}
+						g.Mods = append(g.Mods, newMod("a", true, own))
+						if other == 1 {
+							// the module next to the owner has a private item of the same name in the other namespace
+							o := Item{Name: own.Name, Kind: "type"}
+							if own.Kind == "type" {
+								o = Item{Name: own.Name, Kind: "let"}
+							}
+							m := g.mod(chain[len(chain)-1])
+							m.Items = append(m.Items, o)
+						}
+						if top == 1 {
+							g.Mods[0].Imports = []Import{{From: chain[0], Items: []ImpItem{{Name: edgeName(chain[0])}}}}
+						}
+						for i, n := range chain {
+							from := "a"
+							if i+1 < len(chain) {
+								from = chain[i+1]
+							}
+							items := []ImpItem{imp}
+							switch mix {
+							case 1:
+								items = []ImpItem{{Name: edgeName(from)}, imp}
+							case 2:
+								// two statements: the legal one first
+								g.mod(n).Imports = append(g.mod(n).Imports, Import{From: from, Items: []ImpItem{{Name: edgeName(from)}}})
+							}
+							g.mod(n).Imports = append(g.mod(n).Imports, Import{From: from, Items: items})
+						}
+						e.add(g)
+					}
+				}
+			}
+		}
+	}
+}
+
+// ---- family "sing": modules with singletons of the same name ------------------------------------
+
+// famSing: entry + a, b; every subset of the modules declares a singleton `$K` (and, for some, a
+// second one `$L`); all functions of a module log into and read the module's singletons, through
+// extraction parameters or through `$K` expressions, called directly or through function values;
+// every subset of the edges {main->a, main->b, a->b, b->a} that links at least one module.
+func famSing(e *emitter, lmasks []int) {
+	names := []string{"main", "a", "b"}
+	for direct := 0; direct < 2; direct++ {
+		for via := 0; via < 2; via++ {
+			for kmask := 0; kmask < 8; kmask++ {
+				for _, lmask := range lmasks {
+					if kmask == 0 && lmask == 0 {
+						continue
+					}
+					for edges := 1; edges < 16; edges++ {
+						if edges&3 == 0 {
+							continue
+						}
+						g := Graph{Order: []string{"f", "v"}, Family: "sing", SingDirect: direct == 1, ViaValue: via == 1}
+						g.Mods = []Mod{shapeMod("main", kNone, kPrivLet, 0), shapeMod("a", kPubFn, kNone, 0), shapeMod("b", kPubFn, kPubLet, 0)}
+						for i := range names {
+							if lmask&(1<<i) != 0 {
+								g.Mods[i].Items = append(g.Mods[i].Items, Item{Name: "L", Kind: "sing"})
+							}
+							if kmask&(1<<i) != 0 {
+								g.Mods[i].Items = append(g.Mods[i].Items, Item{Name: "K", Kind: "sing"})
+							}
+						}
+						if edges&4 != 0 {
+							autoImport(&g, 1, "b")
+						}
+						if edges&8 != 0 {
+							autoImport(&g, 2, "a")
+						}
+						var targets []string
+						if edges&1 != 0 {
+							targets = append(targets, "a")
+						}
+						if edges&2 != 0 {
+							targets = append(targets, "b")
+						}
+						autoImport(&g, 0, targets...)
+						e.add(g)
+					}
+				}
+			}
+		}
 	}
 }
 
@@ -593,7 +734,7 @@ func famReexport(e *emitter) {
 
 // ---- family "sample": random graphs beyond the enumerated bounds ------------------------------
 
-func famSample(e *emitter, r *fw.Rng, count int) {
+func famSample(e *emitter, r *fw.Rng, r2 *fw.Rng, count int) {
 	modNames := []string{"main", "a", "b", "c", "d"}
 	for i := 0; i < count; i++ {
 		n := 3 + r.Intn(3)
@@ -692,6 +833,61 @@ func famSample(e *emitter, r *fw.Rng, count int) {
 			pos := r.Intn(len(m.Imports) + 1)
 			m.Imports = append(m.Imports[:pos], append([]Import{bad}, m.Imports[pos:]...)...)
 		}
+		// decorations drawn from a second stream (the graphs above do not depend on them)
+		// singletons of the same name in several modules
+		if r2.Chance(1, 3) {
+			g.SingDirect = r2.Chance(1, 2)
+			for mi := range g.Mods {
+				if r2.Chance(1, 2) {
+					g.Mods[mi].Items = append(g.Mods[mi].Items, Item{Name: "K", Kind: "sing"})
+				}
+				if r2.Chance(1, 4) {
+					g.Mods[mi].Items = append(g.Mods[mi].Items, Item{Name: "L", Kind: "sing"})
+				}
+			}
+		}
+		// sometimes a module tries to import a name from a module that only imported it itself
+		if r2.Chance(1, 6) {
+			// (importer, middle module, name): the middle module imported the name legally from its
+			// owner; the importer is another module that has no such name yet (a second meaning for
+			// a name is a different error, and self imports are enumerated by the edges families)
+			type cand struct {
+				importer int
+				mod      string
+				item     ImpItem
+			}
+			var cands []cand
+			for _, m := range g.Mods {
+				for _, im := range m.Imports {
+					for _, x := range im.Items {
+						if im.From == m.Name || g.mod(im.From) == nil || g.mod(im.From).item(x.Name, x.Type) == nil {
+							continue
+						}
+						for pi := range g.Mods {
+							p := &g.Mods[pi]
+							has := p.Name == m.Name || p.item(x.Name, x.Type) != nil
+							for _, pim := range p.Imports {
+								for _, px := range pim.Items {
+									if px.Name == x.Name && px.Type == x.Type {
+										has = true
+									}
+								}
+							}
+							if !has {
+								cands = append(cands, cand{pi, m.Name, x})
+							}
+						}
+					}
+				}
+			}
+			if len(cands) > 0 {
+				c := cands[r2.Intn(len(cands))]
+				m := &g.Mods[c.importer]
+				pos := r2.Intn(len(m.Imports) + 1)
+				bad := Import{From: c.mod, Items: []ImpItem{c.item}}
+				m.Imports = append(m.Imports[:pos], append([]Import{bad}, m.Imports[pos:]...)...)
+			}
+		}
 		e.add(g)
 	}
 }
@@ -701,14 +897,18 @@ func Bound(tier string) string {
 	tri := "f in {none, pub fn, fn}, v in {none, pub let, let}"
 	e3 := "over 3 modules without self imports with one private global name shared by all modules"
 	e4 := "over 4 modules without self imports (2^12)"
+	singL := "none or {a, b}"
 	if tier == "thorough" {
+		singL = "none, {main, a}, {main, b}, {a, b} or all"
 		tri = "f and v each in {none, pub fn, fn, pub let, let}"
 		e3 = "over 3 modules including self imports also with reversed statement order and with one private global name shared by all modules"
 		e4 = "over 4 modules without self imports (2^12), also with reversed statement order and with one private global name shared by all modules"
 	}
 	return "pairs: entry + module a; a's names f and v each in {none, pub fn, fn, pub let, let} x type T in {none, pub, private}; entry's f in {none, pub fn, fn} x v in {none, pub let, let}; with and without the import edge; direct calls and calls through function values. " +
 		"triples: entry (f in {none, fn} x v in {none, let}) + modules a, b with " + tri + "; every subset of the edges {main->a, main->b, a->b, b->a}; both statement orders in main. " +
-		"kinds: one probe import {f, v, type T, missing value, missing type, f as type, T as value, a builtin name} against every shape of the target (f, v each of 5 kinds x T of 3); importer = the entry or a non-entry module; alone or next to a legal name; plus missing modules (4 positions x 2 item kinds) and two re-export attempts. " +
+		"kinds: one probe import {f, v, type T, missing value, missing type, f as type, T as value, a builtin name} against every shape of the target (f, v each of 5 kinds x T of 3); importer = the entry or a non-entry module; alone or next to a legal name; plus missing modules (4 positions x 2 item kinds), two re-export attempts, and the same probes (alone or next to a legal name, importer = entry) against a middle module that itself imported every pub item of an owner of every shape. " +
+		"chain: owner a with x as fn/let or X as type (pub or private), handed on through 2 or 3 modules that import it one from the other (only the first hop can be legal); last importer = entry or non-entry; the name alone, next to a legal name or in a second statement; with and without a private item of the same name in the other namespace next to the owner. " +
+		"sing: entry + a, b where every subset of the modules declares singleton `$K` (and `$L` in " + singL + "); functions reach them through extraction parameters or `$K` expressions; direct calls and calls through function values; every subset of {main->a, main->b, a->b, b->a} containing an edge from main. " +
 		"edges: every subset of import edges over 2 and 3 modules including self imports (2^4, 2^9), " + e3 + ", " + e4 + "; over 3 modules without self imports also with entry `app` importing a module called `main`, and with calls through function values; fixed shapes (edge function, private fn f in every module, private global). " +
 		"bare: entry + a, b where a and/or b declare no singleton, with and without a global, every subset of {main->a, main->b, a->b, b->a}. " +
 		"reexport: `import trigger minute` / `import templ FooFeature` from a user module that imported it from the host or has no such name; importer = entry or non-entry; alone or first in a braced list. " +
@@ -724,6 +924,12 @@ func buildCases(tier string, seed uint64) []fw.Case {
 	famLeaks(e)
 	famBare(e)
 	famReexport(e)
+	famChain(e)
+	if thorough {
+		famSing(e, []int{0, 3, 5, 6, 7})
+	} else {
+		famSing(e, []int{0, 6})
+	}
 	famEdgesNamed(e, []string{"app", "main", "b"}, false, false, false, false)
 	famEdgesNamed(e, []string{"main", "a", "b"}, false, false, false, true)
 	famKinds(e)
@@ -746,7 +952,7 @@ func buildCases(tier string, seed uint64) []fw.Case {
 	if thorough {
 		n = 12000
 	}
-	famSample(e, fw.NewRng(seed^0xC15), n)
+	famSample(e, fw.NewRng(seed^0xC15), fw.NewRng(seed^0xC15D), n)
 	e.flushAll()
 	return e.cases
 }
